@@ -202,6 +202,8 @@ func (server *Server) registerSugarExecutors() {
 		if err != nil {
 			return NewArrayMessage(), nil
 		}
+		// The reply is read through a position of its own: the handler's message is left as it was returned.
+		arrayMsg = arrayMsg.Rewound()
 		retMsg := NewArrayMessage()
 		nextMsg, err := arrayMsg.Next()
 		for nextMsg != nil {
@@ -237,6 +239,8 @@ func (server *Server) registerSugarExecutors() {
 		if err != nil {
 			return nil, err
 		}
+		// The reply is read through a position of its own: the handler's message is left as it was returned.
+		arrayMsg = arrayMsg.Rewound()
 		return NewIntegerMessage(arrayMsg.Size()), nil
 	})
 
@@ -264,6 +268,8 @@ func (server *Server) registerSugarExecutors() {
 		if err != nil {
 			return NewArrayMessage(), nil
 		}
+		// The reply is read through a position of its own: the handler's message is left as it was returned.
+		arrayMsg = arrayMsg.Rewound()
 		retMsg := NewArrayMessage()
 		nextMsg, err := arrayMsg.Next()
 		for nextMsg != nil {
@@ -305,6 +311,8 @@ func (server *Server) registerSugarExecutors() {
 		if err != nil {
 			return NewIntegerMessage(0), nil
 		}
+		// The reply is read through a position of its own: the handler's message is left as it was returned.
+		arrayMsg = arrayMsg.Rewound()
 
 		memberCount := 0
 		nextMsg, _ := arrayMsg.Next()
@@ -335,6 +343,8 @@ func (server *Server) registerSugarExecutors() {
 		if err != nil {
 			return NewIntegerMessage(0), nil
 		}
+		// The reply is read through a position of its own: the handler's message is left as it was returned.
+		arrayMsg = arrayMsg.Rewound()
 
 		nextMsg, _ := arrayMsg.Next()
 		for nextMsg != nil {
@@ -379,6 +389,8 @@ func (server *Server) registerSugarExecutors() {
 		if err != nil {
 			return NewIntegerMessage(0), nil
 		}
+		// The reply is read through a position of its own: the handler's message is left as it was returned.
+		arrayMsg = arrayMsg.Rewound()
 
 		memberCount := 0
 		nextMsg, _ := arrayMsg.Next()
